@@ -53,7 +53,12 @@ func (c VecCase) Batch() spec.Batch {
 		doc.Fields = append(doc.Fields, spec.Field{Name: "f", Len: 1, Toks: []spec.Tok{{Term: "x", Freq: 1}}})
 		doc.Fields = append(doc.Fields, vecCell(m, c.Metric)...)
 		if c.Two && i == 0 {
-			doc.Fields = append(doc.Fields, spec.Field{Name: "w", Kind: spec.Vector, Vec: []float32{1, 2, 3}, Dims: 3, Sim: "l2_norm", Opt: "latency"})
+			// the second field always uses ANOTHER metric than the first one
+			wm := "l2_norm"
+			if c.Metric == "l2_norm" {
+				wm = "dot_product"
+			}
+			doc.Fields = append(doc.Fields, spec.Field{Name: "w", Kind: spec.Vector, Vec: []float32{1, 2, 3}, Dims: 3, Sim: wm, Opt: "latency"})
 		}
 		b.Docs = append(b.Docs, doc)
 	}
